@@ -2,6 +2,7 @@ package main
 
 import (
 	"fmt"
+	"sort"
 	"strings"
 	"sync"
 	"time"
@@ -413,6 +414,10 @@ func checkC06(e *Env) {
 			e.Violate(&Violation{What: "a source that stays installed, fails during some calls and works again: " + why, Ops: c.ops[:c.i+1], Observed: c.res, Detail: historyNote})
 		}
 	})
+	// the concurrent flavour: goroutines call NewMnemonic at the same time on ONE mutex-protected
+	// scripted source that delivers in fragments and fails transiently; every read is logged
+	// with the goroutine that made it, so each call is judged by its own goroutine's reads
+	concCalls := e.c06Concurrent(drv, e.pick(8, 60))
 	wantMatrix := 0
 	for _, n := range ref.WordCounts {
 		need := n + n/3
@@ -425,8 +430,9 @@ func checkC06(e *Env) {
 		"evaluations":            stats.Ops,
 		"distinct_nontrivial":    dist.Len(),
 		"calls_inside_histories": histCalls,
-		"calls_on_a_source_that_fails_transiently_and_stays_installed": transientCalls,
-		"rule":                          "a case is a scripted randomness source (bytes, per-read delivery sizes, failure point, failure kind, error alone or alongside the last bytes) x word count x language; enumerated: every failure point k in 0..4n/3-1 for n in {12,15,18,21,24} x 13 failure kinds (io.EOF, io.ErrUnexpectedEOF, a custom error, EINTR, EAGAIN, *os.PathError, Temporary()/Timeout() errors, os.ErrDeadlineExceeded, io.ErrNoProgress, io.ErrShortBuffer, io.ErrClosedPipe, wrapped EOF; sticky: the source keeps failing) x {alone, alongside} plus plain end of data, each under several fragmentations (one read, 1-byte reads, halves, (k-1)+1, 1+(k-1), zero-length reads interleaved, seeded random compositions); successes under the same fragmentations incl. zero-leading data, and with a garbage collection (finalizers included) completing between the fragments; all cases non-trivial (the result is compared with the reference encoding of the delivered prefix, or must be (\"\", non-nil error)); distinct by (data, script, n, language)",
+		"concurrent_calls_on_one_shared_source_judged_by_their_own_goroutine's_reads": concCalls,
+		"calls_on_a_source_that_fails_transiently_and_stays_installed":                transientCalls,
+		"rule":                          "a case is a scripted randomness source (bytes, per-read delivery sizes, failure point, failure kind, error alone or alongside the last bytes) x word count x language; enumerated: every failure point k in 0..4n/3-1 for n in {12,15,18,21,24} x 13 failure kinds (io.EOF, io.ErrUnexpectedEOF, a custom error, EINTR, EAGAIN, *os.PathError, Temporary()/Timeout() errors, os.ErrDeadlineExceeded, io.ErrNoProgress, io.ErrShortBuffer, io.ErrClosedPipe, wrapped EOF; sticky: the source keeps failing) x {alone, alongside} plus plain end of data, each under several fragmentations (one read, 1-byte reads, halves, (k-1)+1, 1+(k-1), zero-length reads interleaved, seeded random compositions); successes under the same fragmentations incl. zero-leading data, and with a garbage collection (finalizers included) completing between the fragments; histories over one source that stays installed, fails transiently and works again; goroutines calling at the same time on one shared source, each call judged by the reads its own goroutine made; all cases non-trivial (the result is compared with the reference encoding of the delivered prefix, or must be (\"\", non-nil error)); distinct by (data, script, n, language)",
 		"samples":                       smp.List(),
 		"failure_matrix_cells_covered":  matrix.Len(),
 		"failure_matrix_cells_possible": wantMatrix,
@@ -573,4 +579,126 @@ func (c *transientCall) workingSourceVerdict() string {
 		return fmt.Sprintf("NewMnemonic(%d) returned %s, which does not encode any %d consecutive bytes the source has delivered and that no earlier call used", c.ops[c.i].N, preview(string(unhex(rr.Out))), c.need)
 	}
 	return ""
+}
+
+// c06Concurrent: see checkC06.
+func (e *Env) c06Concurrent(drv string, procs int) (calls int) {
+	var mu sync.Mutex
+	kinds := []string{"custom", "eof", "ueof", "temporary", "eintr", "deadline"}
+	parallel(procs, max(1, e.Workers/4), func(pi int) {
+		r := rng.New(e.Seed, "C06-conc-"+itoa(pi))
+		G := []int{4, 8, 16, 2}[pi%4]
+		per := 24
+		data := r.Bytes(G*per*40*2 + 4096)
+		src := &plan.Src{Data: hx(data)}
+		for k := 0; k < G*per*3; k++ {
+			st := plan.Step{N: 1 + r.Intn(40)}
+			switch r.Intn(9) {
+			case 0:
+				st = plan.Step{N: 0, E: kinds[r.Intn(len(kinds))], Once: true}
+			case 1:
+				st.E, st.Once = kinds[r.Intn(len(kinds))], true
+			}
+			src.Steps = append(src.Steps, st)
+		}
+		c := &plan.Conc{GoMaxProcs: []int{16, 2, 4, 1, 3}[pi%5], Shared: src}
+		lang := r.Intn(ref.NLang)
+		for w := 0; w < G; w++ {
+			var ops []plan.Op
+			for k := 0; k < per; k++ {
+				ops = append(ops, plan.Op{I: k, Fn: "new", L: int64((lang + w%2) % ref.NLang), N: int64(ref.WordCounts[r.Intn(5)]), Shared: true})
+			}
+			c.Workers = append(c.Workers, ops)
+		}
+		cr := e.RunConc(drv, c, "c06-"+itoa(pi), nil, 10*time.Minute)
+		viol := func(what string, detail any) {
+			e.Violate(&Violation{What: fmt.Sprintf("%d goroutines calling NewMnemonic at the same time on one shared source that fragments and fails transiently (GOMAXPROCS %d): %s", G, c.GoMaxProcs, what), Conc: c, Detail: detail})
+		}
+		if v, inc := cr.hang(); v != "" {
+			viol(v, cr.Stderr)
+			return
+		} else if inc != "" {
+			fatalInconclusive("C06: concurrent process: %s", inc)
+		}
+		if cr.Trailer == nil {
+			return // a crash is C12's and C14's business
+		}
+		gidOf := map[int64]int{}
+		for _, inf := range cr.Trailer.Info {
+			var w int
+			var g int64
+			if n, _ := fmt.Sscanf(inf, "worker%d=goid%d", &w, &g); n == 2 {
+				gidOf[g] = w
+			}
+		}
+		type ev struct {
+			data []byte
+			err  string
+		}
+		events := make([][]ev, G)
+		off := 0
+		for _, re := range cr.Trailer.Reads {
+			w, ok := gidOf[re.G]
+			if !ok {
+				return // read by a goroutine that is not a worker: not judged here (C07, C12)
+			}
+			events[w] = append(events[w], ev{data: data[off : off+re.N], err: re.E})
+			off += re.N
+		}
+		pos := make([]int, G)
+		byWorker := make([][]*plan.Res, G)
+		for i := range cr.Results {
+			rr := &cr.Results[i]
+			if rr.G >= 0 && rr.G < G {
+				byWorker[rr.G] = append(byWorker[rr.G], rr)
+			}
+		}
+		for w := 0; w < G; w++ {
+			sort.Slice(byWorker[w], func(a, b int) bool { return byWorker[w][a].I < byWorker[w][b].I })
+			for _, rr := range byWorker[w] {
+				op := &c.Workers[w][rr.I]
+				need := int(op.N) + int(op.N)/3
+				// this call's reads: up to the read that completes the delivery or reports an error
+				var got []byte
+				failed, alongside := false, false
+				for pos[w] < len(events[w]) {
+					e1 := events[w][pos[w]]
+					pos[w]++
+					got = append(got, e1.data...)
+					if e1.err != "" {
+						failed = len(got) < need
+						alongside = len(got) >= need
+						break
+					}
+					if len(got) >= need {
+						break
+					}
+				}
+				if rr.Panic != "" {
+					continue
+				}
+				out := string(unhex(rr.Out))
+				switch {
+				case failed:
+					if rr.Err == nil || out != "" {
+						viol(fmt.Sprintf("worker %d call %d: the source failed after delivering %d of %d bytes to this goroutine, yet NewMnemonic(%d, %s) returned err=%s and %s", w, rr.I, len(got), need, op.N, ref.Names[op.L], errText(rr.Err), preview(out)), rr)
+						return
+					}
+				case len(got) < need:
+					return // the log ended (data exhausted): nothing more to judge in this process
+				case alongside && rr.Err != nil && out == "":
+					// error alongside the completing read: either outcome is fine
+				default:
+					if want := e.Model.Enc(got[:need], int(op.L)); rr.Err != nil || out != want {
+						viol(fmt.Sprintf("worker %d call %d: NewMnemonic(%d, %s) returned err=%s and %s; the source delivered %x to this goroutine during the call, whose encoding is %s", w, rr.I, op.N, ref.Names[op.L], errText(rr.Err), preview(out), got[:need], preview(want)), rr)
+						return
+					}
+				}
+				mu.Lock()
+				calls++
+				mu.Unlock()
+			}
+		}
+	})
+	return calls
 }
